@@ -548,6 +548,41 @@ def rule_r9(repo, run):
               (conds if apps else "missing"), dm.loc(pa))
 
 
+def rule_r10(repo, run):
+    R = run.rule("C14.R10", "a `format:` group given on a declaration wins over the defaults the node computes for itself: it is "
+                            "applied after every unconditional assignment of a format field")
+    am = repo.module("ast")
+    n = 0
+    for q, fn in sorted(am.functions().items()):
+        if not q.endswith((".default_format", ".__init__")):
+            continue
+        ups = [c for c in ast.walk(fn) if isinstance(c, ast.Call) and isinstance(c.func, ast.Attribute) and c.func.attr == "update"
+               and c.args and isinstance(c.args[0], ast.Name) and c.args[0].id in ("format", "fmtdict")
+               and c.args[0].id in [a.arg for a in fn.args.args]]
+        for u in ups:
+            scope = am.seg(u.func.value)
+            # unconditional assignments `<scope>.<field> = ...` (or through a local alias of the same scope) after the update
+            names = {str(scope)}
+            for a in ast.walk(fn):
+                if isinstance(a, ast.Assign) and len(a.targets) == 1 and isinstance(a.targets[0], ast.Name) \
+                        and str(am.seg(a.value)) == str(scope):
+                    names.add(a.targets[0].id)
+                if isinstance(a, ast.Assign) and len(a.targets) == 1 and str(am.seg(a.targets[0])) == str(scope) \
+                        and isinstance(a.value, ast.Name):
+                    names.add(a.value.id)
+            late = [a for a in ast.walk(fn) if isinstance(a, ast.Assign) and isinstance(a.targets[0], ast.Attribute)
+                    and str(am.seg(a.targets[0].value)) in names and (a.lineno, a.col_offset) > (u.lineno, u.col_offset)
+                    # `X.f = X.f.lower()` normalises whatever value is there, the user's included
+                    and not any(isinstance(x, ast.Attribute) and x.attr == a.targets[0].attr
+                                and str(am.seg(x.value)) in names for x in ast.walk(a.value))]
+            n += 1
+            run.check(R, "ast.%s:format-last" % q, not late,
+                      "`%s` is followed by the assignment(s) %s of computed defaults: a value the user gives in the `format:` "
+                      "group of this declaration is overwritten, while the same field given further down (on a function) "
+                      "is honoured" % (" ".join(str(am.seg(u)).split()), [str(am.seg(a.targets[0])) for a in late][:4]), am.loc(u))
+    run.floor(R, "format groups applied by node constructors", n, 4)
+
+
 def run(repo, run, tier):
     rule_r1(repo, run)
     rule_r2(repo, run)
@@ -558,3 +593,4 @@ def run(repo, run, tier):
     rule_x(repo, run)
     rule_r8(repo, run)
     rule_r9(repo, run)
+    rule_r10(repo, run)
